@@ -349,6 +349,7 @@ pub fn primes(n: u32) -> Vec<u32> {
             }
         }
     }
+    primes.truncate(n as usize);
     primes
 }
 
